@@ -222,6 +222,10 @@ func (c *Ctx) symBinop(fr *frame, op token.Token, x, y value) value {
 			if !c.Require(nz, "integer divide by zero") {
 				c.runtimeError(fr, "runtime error: integer divide by zero")
 			}
+			if op == token.REM && signKnown(tx) == 1 && ty.Lo != nil && ty.Lo.Sign() > 0 {
+				// non-negative dividend, positive divisor: Go's % is the Euclidean mod
+				return c.mkval(b.IntModE(tx, ty), k)
+			}
 			q := c.truncDiv(tx, ty)
 			if op == token.QUO {
 				return c.mkval(c.wrapInt(q, k), k)
@@ -252,6 +256,27 @@ func (c *Ctx) symBinop(fr *frame, op token.Token, x, y value) value {
 			return c.mkval(b.IntCmp(">", tx, ty), types.Bool)
 		case token.GEQ:
 			return c.mkval(b.IntCmp(">=", tx, ty), types.Bool)
+		case token.OR, token.XOR, token.ADD + 1000:
+			// (x * 2^k) | y with 0 <= y < 2^k is x*2^k + y
+			for pass := 0; pass < 2; pass++ {
+				hi, lo := tx, ty
+				if pass == 1 {
+					hi, lo = ty, tx
+				}
+				if hi.Kind == sym.TApp && hi.Head == "*" && len(hi.Args) == 2 && lo.Lo != nil && lo.Lo.Sign() >= 0 && lo.Hi != nil {
+					for _, a := range hi.Args {
+						if a.IsConst() && a.Big.Sign() > 0 && new(big.Int).And(a.Big, new(big.Int).Sub(a.Big, big.NewInt(1))).Sign() == 0 && lo.Hi.Cmp(a.Big) < 0 {
+							return c.mkval(c.wrapInt(b.IntAdd(hi, lo), k), k)
+						}
+					}
+				}
+			}
+			if tx.IsConst() && tx.Big.Sign() == 0 {
+				return c.mkval(ty, k)
+			}
+			if ty.IsConst() && ty.Big.Sign() == 0 {
+				return c.mkval(tx, k)
+			}
 		case token.AND:
 			// x & (2^n - 1) for non-negative x
 			if ty.IsConst() && signKnown(tx) == 1 {
